@@ -96,23 +96,41 @@ theorem code_inputValues (ins : List (InVar Rat × VarValue Rat)) :
     | .ok a => ∃ σ, Gen.Code.Engine_input_values.run ins {} = .ok σ ∧ σ.ret = some a :=
   Op.Engine.code_inputValues ins
 
-/-- **Tie A.**  The getter of `Engine.output_values` as repaired (F12: `np.broadcast_arrays` of `np.atleast_1d` of
-    every value, then `np.column_stack`): `ValueError` exactly when the model `outputValues` says so (two values whose
-    numbers of rows differ and are both other than 1), otherwise the model's array – every value of a single row
-    stretched to the rows of the batch. -/
-theorem code_outputValues (outs : List (OutVar Rat × VarValue Rat)) :
-    match outputValues (outs.map (·.2)) with
-    | .error e => Gen.Code.Engine_output_values.run outs {} = .error e.toPy
-    | .ok a => ∃ σ, Gen.Code.Engine_output_values.run outs {} = .ok σ ∧ σ.ret = some a :=
-  Op.Engine.code_outputValues outs
+/-- **Tie A.**  The getter of `Engine.output_values` as repaired (F12, F17: `np.broadcast_arrays` of `np.atleast_1d` of
+    the values of the input variables followed by those of the output variables, the output columns kept, then
+    `np.column_stack`): `ValueError` exactly when the model `outputValues` says so (two values – of input or output
+    variables – whose numbers of rows differ and are both other than 1), otherwise the model's array – every output
+    value of a single row stretched to the rows of the batch. -/
+theorem code_outputValues (ins : List (InVar Rat × VarValue Rat)) (outs : List (OutVar Rat × VarValue Rat)) :
+    match outputValues (ins.map (·.2)) (outs.map (·.2)) with
+    | .error e => Gen.Code.Engine_output_values.run ins outs {} = .error e.toPy
+    | .ok a => ∃ σ, Gen.Code.Engine_output_values.run ins outs {} = .ok σ ∧ σ.ret = some a :=
+  Op.Engine.code_outputValues ins outs
 
-/-- the case F12 is about: every output variable holds the `n` rows of the batch (`batchValues` has one row per row of
-    the batch) or, without activations, a single row: `output_values` is defined and has `n` rows, the single rows
-    repeated -/
-theorem outputValues_batch (vals : List (VarValue Rat)) (n : Nat) (hne : vals ≠ [])
-    (hc : ∀ v ∈ vals, v.rows.length = n ∨ v.rows.length = 1) (hn : ∃ v ∈ vals, v.rows.length = n) :
-    outputValues vals = .ok (ofColumns n (vals.map (fun v => stretch n v.rows))) :=
-  Op.Engine.outputValues_batch vals n hne hc hn
+/-- the case F12 and F17 are about: every value – of an input variable or of an output variable – has the `n` rows of
+    the batch (`batchValues` has one row per row of the batch) or a single row (an input given as a float; an output
+    variable that is disabled or received no activations), and `n` is 1 or SOME value, of an input variable or of an
+    output variable, has `n` rows: `output_values` is defined and has `n` rows, the single rows repeated -/
+theorem outputValues_batch (ins outs : List (VarValue Rat)) (n : Nat) (hne : outs ≠ [])
+    (hc : ∀ v ∈ ins ++ outs, v.rows.length = n ∨ v.rows.length = 1)
+    (hn : n = 1 ∨ ∃ v ∈ ins ++ outs, v.rows.length = n) :
+    outputValues ins outs = .ok (ofColumns n (outs.map (fun v => stretch n v.rows))) :=
+  Op.Engine.outputValues_batch ins outs n hne hc hn
+
+/-- **F17** (false before the repair, when the result had ONE row and `Engine.values` raised): NO output variable holds
+    a value per row – all of them disabled, no rule block enabled, no rule concluding them – while the input variables
+    hold the `n` rows of the batch: `output_values` has `n` rows, each made of the single values the output variables
+    hold -/
+theorem outputValues_no_activations (ins outs : List (VarValue Rat)) (n : Nat) (hne : outs ≠ []) (hi : ins ≠ [])
+    (hins : ∀ v ∈ ins, v.rows.length = n) (houts : ∀ v ∈ outs, v.rows.length = 1) :
+    outputValues ins outs = .ok (ofColumns n (outs.map (fun v => List.replicate n (v.rows.headD .nan)))) :=
+  Op.Engine.outputValues_no_activations ins outs n hne hi hins houts
+
+/-- … and then `Engine.values` does not raise either: the `n` rows of the inputs next to the `n` rows of the outputs -/
+theorem allValues_no_activations (ins outs : List (VarValue Rat)) (n : Nat) (hne : outs ≠ []) (hi : ins ≠ [])
+    (hins : ∀ v ∈ ins, v.rows.length = n) (houts : ∀ v ∈ outs, v.rows.length = 1) :
+    ∃ rows, allValues ins outs = .ok (.matrix (ins.length + outs.length) rows) ∧ rows.length = n :=
+  Op.Engine.allValues_no_activations ins outs n hne hi hins houts
 
 /-- **Tie A.**  The getter of `Engine.values` (`np.hstack` of the two generated getters, input values first) = the
     model `allValues`; in particular it raises `ValueError` for an engine that has input variables but no output
@@ -185,6 +203,22 @@ example : getItem (α := ℚ) [] [] [("b", ⟨true, none, none, none, .general, 
 example : (match getItem (α := ℚ) [] [] [] (.index 0) with | .error .value => true | _ => false) = true := rfl
 /-- `Engine.values` of an engine with input variables and no output variables raises -/
 example : (match allValues (α := ℚ) [.scalar .nan] [] with | .error .value => true | _ => false) = true := by decide
+
+/-- F17, non-vacuity: a batch of three rows on one input variable, two output variables that hold a single NaN / a single
+    default value: three rows -/
+example : (match outputValues (α := ℚ) [.vector [.fin 1, .fin 2, .fin 3]] [.scalar .nan, .vector [.fin (1/2)]] with
+    | .ok (.matrix c rows) => decide (c = 2 ∧ rows = [[.nan, .fin (1/2)], [.nan, .fin (1/2)], [.nan, .fin (1/2)]])
+    | _ => false) = true := by decide +kernel
+example : (match allValues (α := ℚ) [.vector [.fin 1, .fin 2, .fin 3]] [.scalar .nan] with
+    | .ok (.matrix c rows) => decide (c = 2 ∧ rows = [[.fin 1, .nan], [.fin 2, .nan], [.fin 3, .nan]])
+    | _ => false) = true := by decide +kernel
+/-- the hypotheses of `outputValues_no_activations` can be met -/
+example : outputValues (α := ℚ) [.vector [.fin 1, .fin 2, .fin 3]] [.scalar .nan, .vector [.fin (1/2)]]
+    = .ok (ofColumns 3 [List.replicate 3 .nan, List.replicate 3 (.fin (1/2))]) :=
+  outputValues_no_activations _ _ 3 (by simp) (by simp) (by simp [VarValue.rows]) (by simp [VarValue.rows])
+/-- values that do not broadcast raise whichever kind of variable holds them: two rows on the input, three on the output -/
+example : (match outputValues (α := ℚ) [.vector [.fin 1, .fin 2]] [.vector [.nan, .nan, .nan]] with
+    | .error .value => true | _ => false) = true := by decide +kernel
 
 /-! ## non-vacuity -/
 def exampleOut : OutVar ℚ :=
